@@ -141,6 +141,7 @@ inline std::string sanitizer_summary(const std::string& path) {
         if (line.find("SUMMARY:") != std::string::npos && best.empty()) best = line;
         if (line.find("runtime error:") != std::string::npos && first_rt.empty()) first_rt = line;
         if (line.find("ERROR: AddressSanitizer") != std::string::npos && first_rt.empty()) first_rt = line;
+        if (line.find("WARNING: ThreadSanitizer") != std::string::npos && first_rt.empty()) first_rt = line;
         if (line.find("terminate called") != std::string::npos && first_rt.empty()) first_rt = line;
         if (line.find("what():") != std::string::npos) first_rt += " " + line;
         if (nframes < 6 && line.find("    #") != std::string::npos && line.find("Tins::") != std::string::npos) { frames += line.substr(line.find("    #")) + " | "; ++nframes; }
@@ -183,7 +184,16 @@ inline int run(int argc, char** argv, ScenFn fn) {
         }
         int st = 0; waitpid(pid, &st, 0);
         long at = progress[0];
-        if (WIFEXITED(st) && WEXITSTATUS(st) == 0 && at >= hi) { total_exec += progress[1]; total_ev += progress[2]; i = hi; continue; }
+        if (WIFEXITED(st) && at >= hi) {
+            // every scenario of the batch ran to its end
+            total_exec += progress[1]; total_ev += progress[2];
+            // ThreadSanitizer reports do not stop the process; its _exit interceptor turns them into the exit status.
+            // Attributed to the last scenario of the batch (exact with --batch 1, which is how threaded drivers are run).
+            { std::ifstream ef(errfile.c_str()); std::string ln; bool race = false; while (std::getline(ef, ln)) if (ln.find("WARNING: ThreadSanitizer") != std::string::npos) { race = true; break; }
+              if (race || WEXITSTATUS(st) != 0) { std::string summ = sanitizer_summary(errfile);
+                  W w; w.O().kv("sid", (long long)(sid_base + hi - 1)).kv("why", race ? std::string("ThreadSanitizer report") : ("exit " + std::to_string(WEXITSTATUS(st)) + " after the last scenario")).kv("summary", summ).kraw("scen", lines[hi - 1]).E();
+                  fprintf(crashes, "%s\n", w.s.c_str()); fflush(crashes); ++ncrash; } }
+            i = hi; continue; }
         // scenario `at` died
         std::string why = WIFSIGNALED(st) ? (WTERMSIG(st) == SIGALRM ? std::string("hang: scenario exceeded the time bound") : ("signal " + std::to_string(WTERMSIG(st)))) : ("exit " + std::to_string(WEXITSTATUS(st)));
         std::string summ = sanitizer_summary(errfile);
